@@ -756,6 +756,21 @@ func (fc *fctx) recoverValue(st *State, t types.Type) *Value {
 // ---- ghost hooks ----
 
 func (fc *fctx) ghostHook(st *State, fr *frame, call *ast.CallExpr, name string, vars map[string]*Value) {
+	if call != nil && fr.contract == nil && fr.hookContract != nil {
+		// inside an inlined literal: only the ordinal-free hooks of the enclosing contract apply
+		for _, cl := range fr.hookContract.Clauses {
+			if cl.Kind != "ghost" {
+				continue
+			}
+			for _, cand := range []string{name, name[strings.LastIndex(name, ".")+1:]} {
+				if cl.Where == "call "+cand {
+					fc.ghostAssign(st, fr, cl, vars)
+					break
+				}
+			}
+		}
+		return
+	}
 	if call == nil || fr.contract == nil {
 		return
 	}
@@ -816,6 +831,11 @@ func (fc *fctx) hintsAtReturn(st *State, fr *frame) {
 func (fc *fctx) ghostAssign(st *State, fr *frame, cl *Clause, extra map[string]*Value) {
 	env := fc.postEnv(st, fr)
 	env.fr = fr // ghost updates may mention the function's locals by name
+	for k, v := range fr.outerExtras { // ... and the names of the range loops they sit in (keys$k, pos$k, ...)
+		if _, exists := env.vars[k]; !exists && v != nil {
+			env.vars[k] = v
+		}
+	}
 	for k, v := range extra {
 		if _, exists := env.vars[k]; !exists {
 			env.vars[k] = v
@@ -836,6 +856,31 @@ func (env *SpecEnv) assign(target *SExpr, v *Value) {
 					if gt := env.reg.resolveSType(env.pkg, g.SType); gt != nil {
 						if _, isScalar := scalarSort(gt); !isScalar {
 							// interface / composite ghost variable: one global per leaf
+							cv := env.fr0coerce(v, gt)
+							forEachLeaf(cv, cls, func(path string, t *Term) {
+								env.st.heap[path] = t
+								noteClass(path, t.Sort, true)
+							})
+							return
+						}
+					}
+				}
+				env.st.heap[cls] = v.S
+				noteClass(cls, v.S.Sort, true)
+				if v.SpecKind == "seq" {
+					env.st.heap[cls+"#len"] = v.Len
+					noteClass(cls+"#len", SInt, true)
+				}
+				return
+			}
+		}
+		// a ghost variable declared in another package's contract file (unique by name)
+		for k, g := range env.reg.gvars {
+			if strings.HasSuffix(k, "."+target.Name) {
+				cls := "ghost:" + k
+				if v.SpecKind == "" && g.SType.Kind != "mmap" && g.SType.Kind != "set" && g.SType.Kind != "seq" {
+					if gt := env.reg.resolveSType(env.reg.pkgs[strings.TrimSuffix(k, "."+target.Name)], g.SType); gt != nil {
+						if _, isScalar := scalarSort(gt); !isScalar {
 							cv := env.fr0coerce(v, gt)
 							forEachLeaf(cv, cls, func(path string, t *Term) {
 								env.st.heap[path] = t
